@@ -352,16 +352,85 @@ func c14Boundary(c *Ctx, idx int) {
 	}
 }
 
+// precise: numbers that json.Number and decimal128 hold exactly but a float64 does not
+// (near-integers, 2^63-1 with a fraction part, 30+ digit spellings of small integers),
+// as integer arguments and operands: every carrier that holds the value exactly must agree.
+var c14Precise = []string{"3.0000000000000000001", "2.99999999999999999999", "3.00000000000000000000", "9223372036854775807.0", "9223372036854775806.5", "9223372036854775807.5", "4.00000000000000000000000000000001", "0.99999999999999999999999999999999", "1.0000000000000000000000000000000", "30e-1", "0.3e1", "3000000000000000000000e-21", "2.5", "-0.0000000000000000001", "-1.0000000000000000001", "9007199254740993.0", "18446744073709551615.0"}
+
+var c14PreciseTemplates = []string{"find_first('abcabcabc', 'c', v)", "find_first('abcabcabc', 'c', `0`, v)", "find_last('abcabcabc', 'c', v)", "find_last('abcabcabc', 'c', `1`, v)", "pad_left('x', v)", "pad_right('x', v, '-')", "split('a,b,c,d', ',', v)", "replace('aaaa', 'a', 'b', v)",
+	"v == `3`", "v < `3`", "v >= `3`", "[v] == [`3`]", "sort([v, `3`])", "max([v, `3`]) == v", "ceil(v)", "floor(v)", "abs(v)", "v + `0`", "v * `1`", "v - v", "to_number(to_string(v)) == v", "type(v)", "!v", "contains([`3`, `1`], v)", "`[0,1,2,3,4,5]`[?@ == v]", "v // `1`", "v % `1`"}
+
+func c14PreciseRun(c *Ctx, idx int) {
+	t := c14Precise[idx%len(c14Precise)]
+	text := c14PreciseTemplates[idx/len(c14Precise)]
+	if strings.HasPrefix(text, "pad_") && len(t) > 12 && !strings.Contains(t, ".") {
+		return
+	}
+	n := gen.Num(t)
+	if strings.HasPrefix(text, "pad_") && n.R.Cmp(big.NewRat(1000, 1)) > 0 {
+		return // a huge width legitimately drives the result size
+	}
+	carriers := []any{json.Number(t), json.Number(t + "0"), json.Number(t + "e0"), json.Number(t + "00E+0")}
+	if !strings.Contains(t, ".") && !strings.Contains(t, "e") {
+		carriers = carriers[:1]
+	}
+	if strings.Contains(t, "e") {
+		carriers = []any{json.Number(t), json.Number(strings.Replace(t, "e", "E", 1))}
+	}
+	if ref.ExactDec(n) {
+		if d, err := decimal128.Parse(t); err == nil {
+			carriers = append(carriers, d)
+		}
+	}
+	if n.R.IsInt() {
+		bi := n.R.Num()
+		if bi.IsInt64() {
+			carriers = append(carriers, bi.Int64())
+		}
+		if bi.IsUint64() {
+			carriers = append(carriers, bi.Uint64())
+		}
+		carriers = append(carriers, json.Number(bi.String()))
+		if f, exact := n.R.Float64(); exact {
+			carriers = append(carriers, f)
+		}
+	} else if f, exact := n.R.Float64(); exact {
+		carriers = append(carriers, f)
+	}
+	base := c.LibSearch(text, map[string]any{"v": carriers[0]})
+	if base.Panic != nil {
+		c.Report(Violation{Rule: "C14/panic", Expr: text, Data: gen.Describe(carriers[0]), Got: ShowOut(base)})
+		return
+	}
+	for _, v := range carriers[1:] {
+		data := map[string]any{"v": v}
+		lv := c.LibSearch(text, data)
+		if !SameOutcome(base, lv, false) {
+			c.Report(Violation{Rule: "C14/representation-dependent", Expr: text, Data: gen.Describe(data), Got: ShowOut(lv), Want: ShowOut(base) + "  (v as json.Number " + t + ")", Features: map[string]string{"template": text, "stream": "precise"}})
+		}
+	}
+	// and the value itself must be what the model says (exact arithmetic)
+	doc := ref.NewObj()
+	doc.Set("v", n)
+	if m := ref.Search(text, doc); !m.Unspec {
+		if judged, ok, why := Agree(m, base); judged && !ok {
+			c.Report(Violation{Rule: "C14/model", Expr: text, Data: gen.Describe(carriers[0]), Got: ShowOut(base), Want: m.String(), Detail: why, Features: map[string]string{"stream": "precise"}})
+		}
+	}
+	c.Nontrivial(text, t)
+}
+
 var c14NeighbourTemplates = []string{"sort([v, u, z])", "sort([z, v, u])", "sort([v, u])", "[u < v, v < z, u == v, v == z, u >= v, z <= v]", "max([u, v, z]) == z", "min([v, z, u]) == u", "sort_by([{k: v}, {k: u}, {k: z}], &k)[*].k", "max_by([{k: u}, {k: z}, {k: v}], &k).k == z", "min_by([{k: v}, {k: u}], &k).k == u",
 	"[v, u, z][?@ > v]", "[v, u, z][?@ == v]", "contains([u, z], v)", "[u, v] == [v, u]", "v - u", "z - v", "sort([z, v, u])[1] == v", "[u, v, z] | sort(@) | [0] == u", "sort([v, u, z, u, v])", "(u < v) && (v < z)", "group_by([{k: u}, {k: v}, {k: z}], &to_string(k == v)) | keys(@) | sort(@)"}
 
 func init() {
 	Register(&Property{
 		ID:            "C14",
-		Rule:          "documents whose number leaves are dyadic rationals k/2^m (|k| < 2^11, m <= 4: exact in json.Number, every int/uint width that fits, float32, float64 and decimal128) with 100 expression templates (+ - x / by powers of two, // %, unary signs, comparisons, == != incl. against literals and inside containers, contains, sort, sort_by, min/max(_by), sum, avg, abs/ceil/floor, truthiness, type, to_number, to_string round trip, filters, map, group_by and every integer-argument coercion fed from the document with integral, non-integral and negative values) and seeded random arithmetic expressions; baseline = all leaves as canonical json.Number; 6 random assignments of Go representations per case plus 7 uniform ones (every leaf float64 / float32 / int / int64 / uint / decimal128 / 'n.0') (json.Number spellings 5 / 5.0 / 5e0 / 50e-1, int..int64, uint..uint64, float32, float64, decimal128 in two exponents) must give the same outcome in value and error category (metamorphic, library against itself); boundary stream: 13 large integral values (2^31 .. 2^64, -2^63, 2^100) in every kind that holds them exactly through 31 templates (integer arguments, comparisons, sorting, arithmetic), and each of them together with its neighbours v-1 and v+1 through 20 ordering/equality templates; non-trivial = at least one leaf changed representation and the result is non-null",
+		Rule:          "documents whose number leaves are dyadic rationals k/2^m (|k| < 2^11, m <= 4: exact in json.Number, every int/uint width that fits, float32, float64 and decimal128) with 100 expression templates (+ - x / by powers of two, // %, unary signs, comparisons, == != incl. against literals and inside containers, contains, sort, sort_by, min/max(_by), sum, avg, abs/ceil/floor, truthiness, type, to_number, to_string round trip, filters, map, group_by and every integer-argument coercion fed from the document with integral, non-integral and negative values) and seeded random arithmetic expressions; baseline = all leaves as canonical json.Number; 6 random assignments of Go representations per case plus 7 uniform ones (every leaf float64 / float32 / int / int64 / uint / decimal128 / 'n.0') (json.Number spellings 5 / 5.0 / 5e0 / 50e-1, int..int64, uint..uint64, float32, float64, decimal128 in two exponents) must give the same outcome in value and error category (metamorphic, library against itself); precise stream: 17 numbers that need more precision than a float64 has (near-integers, 2^63-1 with a fraction part, long spellings of small integers) through 27 templates (every integer-argument position, comparisons, rounding, arithmetic) in every carrier that holds them exactly (json.Number spellings, decimal128, int64/uint64/float64 where exact) and against the exact model; boundary stream: 13 large integral values (2^31 .. 2^64, -2^63, 2^100) in every kind that holds them exactly through 31 templates (integer arguments, comparisons, sorting, arithmetic), and each of them together with its neighbours v-1 and v+1 through 20 ordering/equality templates; non-trivial = at least one leaf changed representation and the result is non-null",
 		MinNontrivial: 2000,
 		Streams: []Stream{
 			{Name: "assignments", N: func(c *Ctx) int { return tierN(c, 20000, 1000000) }, Run: c14Run},
+			{Name: "precise", N: func(c *Ctx) int { return len(c14Precise) * len(c14PreciseTemplates) }, Run: c14PreciseRun, Exhaustive: true},
 			{Name: "boundary", N: func(c *Ctx) int { return len(c14Big) * len(c14BigTemplates) }, Run: c14Boundary, Exhaustive: true},
 		},
 	})
